@@ -4,24 +4,6 @@ From Cedar Require Import Typecheck ValueProofs ConformProofs ExprEq TypecheckPr
 #[local] Hint Resolve at_true at_never caps_hold_nil caps_hold_app caps_hold_inter_l caps_hold_inter_r : c03.
 
 (* ---------------------------------------------------------------------------------------
-   the proved fragment *)
-Fixpoint in_fragment (e : expr) : bool :=
-  match e with
-  | Lit _ | Var _ => true
-  | And a b | Or a b => in_fragment a && in_fragment b
-  | BinApp BEq a b | BinApp BAdd a b | BinApp BSub a b | BinApp BMul a b =>
-      in_fragment a && in_fragment b
-  | UnApp UNot a | UnApp UNeg a => in_fragment a
-  | Like x _ | Is x _ => in_fragment x
-  | If c x y => in_fragment c && in_fragment x && in_fragment y && boolish x && boolish y
-  | HasAttr x _ | GetAttr x _ => is_path x
-  | _ => false
-  end.
-
-Lemma is_path_frag x : is_path x = true -> in_fragment x = true.
-Proof. destruct x; cbn; try discriminate; auto. Qed.
-
-(* ---------------------------------------------------------------------------------------
    attributes of conformant records and entities *)
 Lemma expect_er tx :
   existsb (subty Permissive tx) [ty_any_entity; ty_any_record] = true ->
@@ -357,52 +339,4 @@ Section Sound.
       intros _. apply caps_hold_nil.
   Qed.
 
-  Theorem tc_sound : forall e, in_fragment e = true -> IHfor m sch env q es e.
-  Proof.
-    induction e; cbn [in_fragment]; try discriminate; intros Hf.
-    - apply sound_lit.
-    - apply sound_var. exact Henv.
-    - apply andb_prop in Hf. destruct Hf as [Hf Hby]. apply andb_prop in Hf. destruct Hf as [Hf Hbx].
-      apply andb_prop in Hf. destruct Hf as [Hf Hfy]. apply andb_prop in Hf. destruct Hf as [Hfc Hfx].
-      apply sound_if; [exact Hbx|exact Hby|apply IHe1; exact Hfc|apply IHe2; exact Hfx|apply IHe3; exact Hfy].
-    - apply andb_prop in Hf. destruct Hf as [H1 H2]. apply sound_and; [apply IHe1; exact H1|apply IHe2; exact H2].
-    - apply andb_prop in Hf. destruct Hf as [H1 H2]. apply sound_or; [apply IHe1; exact H1|apply IHe2; exact H2].
-    - destruct op; try discriminate Hf.
-      + apply sound_not. apply IHe. exact Hf.
-      + apply sound_neg. apply IHe. exact Hf.
-    - destruct op; try discriminate Hf; apply andb_prop in Hf; destruct Hf as [H1 H2].
-      + apply sound_eq; [exact Henv|apply IHe1; exact H1|apply IHe2; exact H2].
-      + apply sound_arith; [auto|apply IHe1; exact H1|apply IHe2; exact H2].
-      + apply sound_arith; [auto|apply IHe1; exact H1|apply IHe2; exact H2].
-      + apply sound_arith; [auto|apply IHe1; exact H1|apply IHe2; exact H2].
-    - apply sound_getattr; [exact Hf|apply IHe; apply is_path_frag; exact Hf].
-    - apply sound_hasattr; [exact Hf|apply IHe; apply is_path_frag; exact Hf].
-    - apply sound_like. apply IHe. exact Hf.
-    - apply sound_is. apply IHe. exact Hf.
-  Qed.
-
-  (* a condition typed False is never satisfied *)
-  Corollary tc_impossible e cs cs' :
-    in_fragment e = true -> caps_hold q es cs ->
-    tc m sch env cs e = Some (TBool BFalse, cs') -> eval [] q es e <> Ok (VBool true).
-  Proof.
-    intros Hf Hcs Htc Hev.
-    destruct (tc_sound e Hf _ _ _ Hcs Htc) as [_ [(c & He & _)|(v & He & Hv & _)]].
-    - rewrite Hev in He. discriminate.
-    - rewrite Hev in He. inversion He; subst. inversion Hv.
-  Qed.
-
-  (* an accepted condition evaluates to a boolean or fails with a permitted error *)
-  Corollary tc_env_sound e t :
-    in_fragment e = true ->
-    tc_env m sch env e = EnvSuccess t \/ tc_env m sch env e = EnvIrrelevant ->
-    (exists c, eval [] q es e = Err c /\ allowed_err c) \/ (exists b, eval [] q es e = Ok (VBool b)).
-  Proof.
-    intros Hf Hok. unfold tc_env in Hok.
-    destruct (expect (tc m sch env [] e) [TBool BAny]) as [[t0 c0]|] eqn:E.
-    2:{ destruct Hok; discriminate. }
-    apply expect_inv in E. destruct E as [E Hs].
-    destruct (tc_sound e Hf _ _ _ (caps_hold_nil q es) E) as [_ [H|(v & He & Hv & _)]]; [left; exact H|].
-    destruct (boolean_value _ _ Hs Hv) as (x & b & _ & -> & _). right. eauto.
-  Qed.
 End Sound.
